@@ -9,7 +9,7 @@ add_argument keyword selected by `<kw>.arg == "default"`.  Sinks: test of if / w
 operand of `not`, non-final operand of and/or, comprehension condition.  Comparisons (`is None`, `in none_types`,
 `== NoneStr`) are not truthiness tests of the value.
 
-Sites where the conflation is provably harmless are listed in ACCEPTED, one construct each with the reason.
+Two construct classes where the conflation is provably harmless are accepted semantically (see _accepted_reason).
 
 STRIP-SET: str.lstrip/rstrip/strip with a literal word (>= 4 characters, >= 2 letters) removes a character *set*,
 not a prefix/suffix: on prose it eats leading/trailing letters of the real text.
@@ -18,12 +18,28 @@ import ast
 
 from sa.model import AnalysisError, Finding, enclosing_fn, loc, src
 
-ACCEPTED = {
-    ("ast_utils.param2ast", "truth:_param.get('default') in _param.get('default') or simple_types[_param['typ']]"):
-        "simple-type branch: a falsy default (0, 0.0, False, '') is replaced by the zero value of the same declared type, which is the same value",
-    ("emit.function", "truth:(intermediate_repr.get('returns') or {'return_type': {}})['return_type'].get('default') in Return(...) if ... else None"):
-        "the return entry's default is a source expression string; the empty string is not an expression, so 'falsy' and 'absent' coincide",
-}
+def _accepted_reason(fi, c, holder):
+    """Semantic exceptions (each a construct class with its reason), not text matches."""
+    # (A) the default of the *return entry* is a source-expression string; '' is not an expression, so falsy == absent
+    recv = None
+    if isinstance(c, ast.Subscript):
+        recv = c.value
+    elif isinstance(c, ast.Call) and isinstance(c.func, ast.Attribute):
+        recv = c.func.value
+    seen = 0
+    while isinstance(recv, ast.Name) and seen < 3:
+        defs = [st.value for st in ast.walk(fi.node) if isinstance(st, ast.Assign) and any(isinstance(t, ast.Name) and t.id == recv.id for t in st.targets)]
+        if len(defs) != 1:
+            break
+        recv, seen = defs[0], seen + 1
+    if recv is not None and any(isinstance(x, ast.Constant) and x.value == "return_type" for x in ast.walk(recv)):
+        return "the return entry's default is a source expression string; the empty string is not an expression, so 'falsy' and 'absent' coincide"
+    # (B) `default or simple_types[typ]`: a falsy default is replaced by the zero value of the same declared type
+    if isinstance(holder, ast.BoolOp) and isinstance(holder.op, ast.Or):
+        last = holder.values[-1]
+        if any(isinstance(x, ast.Name) and x.id == "simple_types" for x in ast.walk(last)):
+            return "a falsy default (0, 0.0, False, '') is replaced by the zero value of the same declared type, which is the same value"
+    return None
 
 
 def _is_default_read(e):
@@ -107,8 +123,9 @@ def rule_falsy(prog, rep, tier, scope=None):
                 n_tests += 1
                 construct = "truth:%s in %s" % (src(c, 90), _ctx(holder))
                 where = fi.qualname
-                if (where, construct) in ACCEPTED:
-                    rep.ob("FALSY", "%s: %s" % (where, construct), "accepted", loc(prog, c), ACCEPTED[(where, construct)])
+                why_ok = _accepted_reason(fi, c, holder)
+                if why_ok:
+                    rep.ob("FALSY", "%s: %s" % (where, construct), "accepted", loc(prog, c), why_ok)
                 else:
                     rep.violation(Finding(
                         "FALSY", where, construct,
